@@ -14,13 +14,13 @@ PROPS = {
                      "that those callers pass the expression they were given is part of C02's statement-level units"],
         assumptions=["wf(skel(input)) is assumed of every parsed input (parser guarantee): operator tokens match their variant, operands fit",
                      "leaf formatters (calls, tables, functions, vars, if-expressions, interpolated strings, type assertions) keep their identity (class C stubs)"]),
-    "C08": dict(units=["ctx", "block", "lib", "sort"],
+    "C08": dict(units=["ctx", "block", "lib", "sort", "table"],
         explanation="should_format_node (real text): inside an ignore region or under a `stylua: ignore` directive the decision is Skip. "
                     "format_stmt / format_last_stmt: Skip => the node is returned unchanged. format_block (real loop, inductive invariant over the "
                     "peekable iterator): for every statement whose decision (under the context folded from the ignore start/end toggles) is Skip, the "
                     "output pair (statement, semicolon token) is identical to the input pair; same for the last statement.",
         not_decided=["the string matching that recognises the directive text inside a comment (comment.lines().map(trim) — str iterators): assumed as has_ignore()/toggled()",
-                     "table fields (format_field / format_multiline_table) and require-sorting inside ignore regions: see units table / sort when present"],
+                     "format_multiline_table's loop (it toggles the ignore state per field and calls format_field): not under contract; format_field itself is (unit table)"],
         assumptions=["Block::stmts_with_semicolon / with_stmts / Peekable::next/peek behave as sequences (class A/B)"]),
     "C09": dict(units=["ctx", "block", "lib", "sort"], bounded=[dict(kind="lib", witnesses="RANGE_SORT_WITNESSES")],
         explanation="should_format_node (real text) returns NotInRange iff start < range.start or end > range.end for all positions and bounds. "
@@ -28,7 +28,7 @@ PROPS = {
                     "statement keeps its semicolon token and trailing trivia (pair pushed as returned), in the same position.",
         not_decided=["in-range statements come out as in whole-file formatting (relates two runs)", "stmt_block::format_stmt_block touches only nested blocks (assumed, class C)"],
         assumptions=[]),
-    "C03": dict(units=["tok", "args"], bounded=[dict(kind="lib", witnesses="C03_BOUNDED")],
+    "C03": dict(units=["tok", "args", "stmt"], bounded=[dict(kind="lib", witnesses="C03_BOUNDED")],
         explanation="token/trivia layer, all real text: format_token keeps a comment's kind, long-bracket level and text (line comments right-trimmed, block comments newline-normalised) and "
                     "creates only whitespace; load_token_trivia (real loop over a Peekable with an inner next(), inductive invariant): the comments of the input trivia come out in order, each only "
                     "rewritten as format_token allows, input whitespace is never copied, and in leading trivia every line comment is followed by a newline; format_token_reference / format_symbol / "
@@ -99,7 +99,7 @@ PROPS = {
                      "byte-identical output across carriers is implied only through `same Config`; equality of the library's output for equal Configs is determinism of format_code, not proved"],
         assumptions=["ec4rs Properties::get::<T>() returns the parsed value of key T (wrappers); the string parsers generated by property_choice! are macro output (assumed)"],
         technique="Kani complete enumeration of finite enum domains + Verus contracts on mechanically extracted real functions"),
-    "C07": dict(bounded=[dict(kind="lib", witnesses="C07_BOUNDED")], units=["expr", "block", "ctx", "lib", "tok", "cli_io", "diff", "config", "econf", "sort", "args"], kani=["shape"],
+    "C07": dict(bounded=[dict(kind="lib", witnesses="C07_BOUNDED")], units=["expr", "block", "ctx", "lib", "tok", "cli_io", "diff", "config", "econf", "sort", "args", "table", "stmt"], kani=["shape"],
         explanation="Totality of the library call, decided per function under contract: inside every function whose real text is verified, each panic!/unreachable!/assert!/expect/unwrap, "
                     "each usize subtraction/addition/multiplication and every recursion or loop (decreases) is an obligation Verus discharges for all inputs (one `.total` obligation per function and "
                     "feature set). format_code returns Err(ParseError) iff the input does not parse and never Ok otherwise; format_ast without verification always returns Ok. "
@@ -118,11 +118,11 @@ PROPS = {
                      "slice::sort_by_key is assumed to be a stable sort by the name (class B wrapper); the leading-trivia swap (comments of the group's first line stay on top) is a hole: comment preservation inside a sorted group is only exercised by the bounded witnesses",
                      "get_expression_kind (what counts as a require / GetService call): string matching, assumed"],
         assumptions=["parsed ASTs carry positions; local names are identifier tokens (parser)"]),
-    "C02": dict(units=["expr", "block", "lib", "tok", "args"], bounded=[dict(kind="lib", witnesses="C02_BOUNDED")],
+    "C02": dict(units=["expr", "block", "lib", "tok", "args", "table", "stmt"], bounded=[dict(kind="lib", witnesses="C02_BOUNDED")],
         explanation="expression spine: same obligations as C05 (operator tree, leaves, operators)",
         not_decided=["statement/block/args/token layers are decided in their own units (see runs)"],
         assumptions=[]),
-    "C01": dict(units=["expr", "block", "lib", "tok"], bounded=[dict(kind="lib", witnesses="C01_BOUNDED")],
+    "C01": dict(units=["expr", "block", "lib", "tok", "table"], bounded=[dict(kind="lib", witnesses="C01_BOUNDED")],
         explanation="necessary conditions only: `- -x` guard on both paths, right-open expressions never freed under an operator",
         not_decided=["whole-grammar printer correctness"], assumptions=[]),
 }
@@ -222,8 +222,10 @@ TABLE_COMMENT_WITNESSES = [
 COLLAPSE_SRC = ('if ready then start() notify(queue) end\nif not item.enabled then -- skip disabled entries\n return nil end\nif a then return end\nif b then x = 1 end\n'
                 'local function f() return 1 end\nlocal function g() print(1) print(2) end\nfunction h()\n\t-- stylua: ignore\n\tfoo(  )\nend\nlocal k = function() -- c\n return 2 end\nif c then goto done end\n::done::\n')
 COLLAPSE_WITNESSES = [w(COLLAPSE_SRC, oracle=o, syntax="lua52", collapse_simple_statement=c, sweep=(20, 120)) for c in ("Always", "ConditionalOnly", "FunctionOnly", "Never") for o in ("tree", "comments")]
+COND_COMMENT_WITNESSES = [w('while ( --[[a]] x --[[b]] ) --[[c]] do end\nif --[[d]] (y) then end\nrepeat until ( --[[e]] z )\nwhile ( -- f\n w) do end\nif (a) then end\n', oracle="comments", sweep=(20, 120))]
 SEMI_COMMENT_WITNESSES = [w('local a = b; -- c\n(f or g)()\nlocal d = e; --[[ blk ]]\n(h)()\nx = 1; -- gone\nreturn x; -- last\n', oracle="comments")]
 WITNESSES = {
+    "C03.condition": COND_COMMENT_WITNESSES, "C02.condition": COND_COMMENT_WITNESSES,
     "C02.stmt": COLLAPSE_WITNESSES, "C01.semicolon": COLLAPSE_WITNESSES[:2] + SEMI_COMMENT_WITNESSES, "C08.block": SEMI_COMMENT_WITNESSES,
     "C02.": TYPE_WITNESSES, "C03.": TABLE_COMMENT_WITNESSES,
     "C01.line_comment": C04_WITNESSES + C10_WITNESSES[:4], "C04.": C04_WITNESSES, "C03.token_text": C04_WITNESSES + C10_WITNESSES, "C11.quote_choice": C04_WITNESSES[:4], "C10.": C10_WITNESSES,
@@ -241,7 +243,7 @@ WITNESSES = {
 
 C01_BOUNDED = [x for x in COLLAPSE_WITNESSES if x["oracle"] == "comments"] + BRACKET_WITNESSES
 C02_BOUNDED = TYPE_WITNESSES + [x for x in COLLAPSE_WITNESSES if x["oracle"] == "tree"]
-C03_BOUNDED = TABLE_COMMENT_WITNESSES + SEMI_COMMENT_WITNESSES + [x for x in COLLAPSE_WITNESSES if x["oracle"] == "comments"][:2]
+C03_BOUNDED = TABLE_COMMENT_WITNESSES + COND_COMMENT_WITNESSES + SEMI_COMMENT_WITNESSES + [x for x in COLLAPSE_WITNESSES if x["oracle"] == "comments"][:2]
 def nest(n, open_, close): return "local v = " + "".join(open_ for _ in range(n)) + "1" + "".join(close for _ in range(n)) + "\n"
 TIME_WITNESSES = [dict(w(nest(24, "f({ ", " })"), oracle="parse"), time_limit=20), dict(w(nest(22, "f(", ")"), oracle="parse"), time_limit=20),
                   dict(w(nest(40, "{ ", " }"), oracle="parse"), time_limit=20), dict(w("local v = " + " + ".join(f"a{i}" for i in range(400)) + "\n", oracle="parse"), time_limit=20)]
